@@ -659,3 +659,17 @@ SPECS += [
                                      "stmt": True, "param_updates": ["info_time", "info_grid", "info_meta"]}},
          props=["C06"]),
 ]
+
+# the wrappers that decide *which* rule sets are applied in a connect call (F18 was here): `self._apply_rules(rules)` is a
+# parameter by slot name (None = MissingInfoError)
+APPLIED = "Lean:(Nat → Option Nat)"
+SPECS += [
+    dict(lean="ConnectHelper__apply_in_info_rules", path="tools/connect_helper.py", qual="ConnectHelper._apply_in_info_rules", group="Rules", loop_extras=True,
+         fields={"_in_info_rules": "Dict[Obj,Int]", "in_infos": "Dict[Obj,Opt[Unit]]", "_cache": "Bool", "_in_info_cache": "Dict[Obj,Obj]"},
+         params={}, extra_params={"applied": APPLIED}, ret="Dict[Obj,Obj]", locals={"exchange_infos": "Dict[Obj,Obj]", "info": "Obj"},
+         raising={"self._apply_rules(rules)": ("(applied name)", "Opt[Obj]")}, props=["C06"]),
+    dict(lean="ConnectHelper__apply_out_info_rules", path="tools/connect_helper.py", qual="ConnectHelper._apply_out_info_rules", group="Rules", loop_extras=True,
+         fields={"_out_info_rules": "Dict[Obj,Int]", "infos_pushed": "Dict[Obj,Bool]", "_cache": "Bool", "_out_info_cache": "Dict[Obj,Obj]"},
+         params={}, extra_params={"applied": APPLIED}, ret="Dict[Obj,Obj]", locals={"push_infos": "Dict[Obj,Obj]", "info": "Obj"},
+         raising={"self._apply_rules(rules)": ("(applied name)", "Opt[Obj]")}, props=["C06"]),
+]
